@@ -55,8 +55,11 @@ def _forms(ctx, chord, no_inv=False, no_poly=False, accept=True):
             ctx.check("|" in li, "forms/order", lambda: "%r: %r vs %r" % (chord, si, li))
         else:
             root, suffix = _split_root(si)
-            if suffix in R.MEANING:
-                head = root + R.MEANING[suffix]
+            # the text that names a chord type is the library's own table of meanings (its wording is not part of the statement;
+            # that the table matches what is constructible is C06's subject); the reference table is the fall-back
+            meaning = getattr(chords, "chord_shorthand_meaning", {}).get(suffix, R.MEANING.get(suffix))
+            if meaning is not None:
+                head = root + meaning
                 good = li.startswith(head) and li[len(head):] in R.ORDINALS
             else:
                 good = li.startswith(root + " ")
@@ -96,8 +99,9 @@ def check_rotation(ctx, case):
         if ctx.check(found, "recognise/" + sh, lambda: "%r (%s%s, rotation %d) -> %r" % (rot, root, sh, k, s)):
             def long_ok(i):
                 r_, suffix = _split_root(s[i])
-                if suffix in R.MEANING:
-                    return l[i] == root + R.MEANING[suffix] + R.ORDINALS[k]
+                meaning = getattr(chords, "chord_shorthand_meaning", {}).get(suffix, R.MEANING.get(suffix))
+                if meaning is not None:
+                    return l[i] == root + meaning + R.ORDINALS[k]
                 return l[i].startswith(root + " ") and l[i].endswith(R.ORDINALS[k]) and (k > 0 or "inversion" not in l[i])
             ctx.check(any(long_ok(i) for i in found), "long-name/inv%d" % k,
                       lambda: "%r (%s%s, rotation %d) -> %r / %r" % (rot, root, sh, k, s, l))
